@@ -196,6 +196,22 @@ func init() {
 						reqs = append(reqs[:at], append([]Req{rep}, reqs[at:]...)...)
 					}
 				}
+				// rules of the $domain table on several levels of one hostname chain (3-7 of them on the parent, so that its
+				// bucket has spare capacity) and requests from different subdomains of it, asked by different goroutines
+				par := Pick(g, []string{"example.org", "tracker.io", "test.com"})
+				np := 3 + g.Intn(5)
+				for k := 0; k < np; k++ {
+					ls[0].content += fmt.Sprintf("/a%d$domain=%s\n", k, par)
+				}
+				subs := []string{"a." + par, "b." + par, "c.a." + par, "d." + par}
+				for k, sb := range subs {
+					ls[0].content += fmt.Sprintf("/s%d$domain=%s\n", k, sb)
+				}
+				for k := 0; k < 24; k++ {
+					sb := subs[k%len(subs)]
+					at := g.Intn(len(reqs) + 1)
+					reqs = append(reqs[:at], append([]Req{{Kind: "url", URL: fmt.Sprintf("http://cdn.test/a%d/s%d/x", k%np, k%len(subs)), Source: "https://" + sb + "/", Type: 4}}, reqs[at:]...)...)
+				}
 				n := Pick(g, []int{2, 3, 4, 8, 16, 32})
 				emit(encodeStorage(ls) + "\t" + encodeReqs(reqs) + "\t" + fmt.Sprint(n) + "\t" + b01(i%2 == 0))
 			}
